@@ -336,8 +336,12 @@ def set_case_timeout(seconds: int) -> None:
 
 def _run_task(task: tuple) -> Any:
     fn, args = task[0], task[1:]
+    # the limit is on CPU time of the case (independent of the load of the machine); wall-clock time is only a
+    # generous backstop for a case that blocks without computing
     signal.signal(signal.SIGALRM, _alarm)
-    signal.alarm(CASE_TIMEOUT)
+    signal.signal(signal.SIGVTALRM, _alarm)
+    signal.setitimer(signal.ITIMER_VIRTUAL, CASE_TIMEOUT)
+    signal.alarm(CASE_TIMEOUT * 15)
     try:
         if fn in IMPL_FUNCS:
             f = IMPL_FUNCS[fn]
@@ -353,6 +357,7 @@ def _run_task(task: tuple) -> Any:
         import traceback
         return {"ok": False, "err": "Harness:" + type(e).__name__, "msg": traceback.format_exc()[-600:]}
     finally:
+        signal.setitimer(signal.ITIMER_VIRTUAL, 0)
         signal.alarm(0)
 
 
